@@ -44,6 +44,9 @@ type Scenario struct {
 	Blocks             []BlockSpec `json:"blocks"` // index 1..; [0] unused
 	Nodes              []NodeSpec  `json:"nodes"`
 	DisableCheckpoints bool        `json:"disable_checkpoints"`
+	// OldChain: every header is older than 24 h, so HeaderService.IsCurrent() is false at any
+	// height (the common case of an initial sync); otherwise the headers are recent.
+	OldChain bool `json:"old_chain,omitempty"`
 	Checkpoints        []int       `json:"checkpoints"` // block ids; empty = only genesis
 	Initial            []int       `json:"initial"`     // blocks stored before the engine starts
 	Pick               int         `json:"pick"`        // answer to sync-peer selection (mod candidates)
@@ -122,7 +125,11 @@ func buildBlocks(sc *Scenario) (*core.Universe, []block) {
 		}
 		nodes[i] = core.BNode{Parent: sc.Blocks[i].Parent, Bits: bits}
 	}
-	u := core.Fabricate(core.Blueprint{Nodes: nodes}, 0)
+	bp := core.Blueprint{Nodes: nodes}
+	if sc.OldChain {
+		bp.TimeBase = 900000000 // 1998: more than 24 h before the bubble's clock (2000-01-01)
+	}
+	u := core.Fabricate(bp, 0)
 	bl := make([]block, len(sc.Blocks))
 	height := make([]int, len(sc.Blocks))
 	for i := range sc.Blocks {
@@ -466,12 +473,14 @@ func (w *world) reached(want block) bool {
 	return tip.CumulatedWork.Cmp(h.CumulatedWork) >= 0
 }
 
-// notCurrent: the tip is below the last configured checkpoint (HeaderService.IsCurrent is false),
-// in which state the default engine ignores block announcements of peers other than the sync peer.
+// notCurrent: the tip is below the last configured checkpoint or older than 24 h (what
+// HeaderService.IsCurrent is documented to mean - computed here from the scenario, not asked of
+// the service), in which state the default engine ignores block announcements of peers other
+// than the sync peer.
 func (w *world) notCurrent() bool {
 	_, h := w.tipHash()
 	last := config.Checkpoints[len(config.Checkpoints)-1]
-	return h < last.Height
+	return h < last.Height || w.sc.OldChain
 }
 
 // closure runs the deterministic fair continuation: reliable nodes keep answering, a reliable
